@@ -85,12 +85,16 @@ class SimulatorCallback(StoreResultsCallback):
             # receives
             self._backup_stop_criterion = stop_criterion
             max_wallclock_time = stop_criterion.max_wallclock_time
+            # Metric thresholds of the original criterion remain in force
+            max_metric_value = dict(stop_criterion.max_metric_value or dict())
+            max_metric_value[ST_TUNER_TIME] = max_wallclock_time
             new_stop_criterion = StoppingCriterion(
                 max_num_trials_started=stop_criterion.max_num_trials_started,
                 max_num_trials_completed=stop_criterion.max_num_trials_completed,
                 max_cost=stop_criterion.max_cost,
                 max_num_trials_finished=stop_criterion.max_num_trials_finished,
-                max_metric_value={ST_TUNER_TIME: max_wallclock_time},
+                min_metric_value=stop_criterion.min_metric_value,
+                max_metric_value=max_metric_value,
                 max_num_evaluations=stop_criterion.max_num_evaluations,
             )
             tuner.stop_criterion = new_stop_criterion
